@@ -158,8 +158,8 @@ class _ForgerWrapper(object):
     def _sigtools__forger(self, obj):
         return self._signature_forger(obj=self.__wrapped__)
 
-    def __call__(self, *args, **kwargs):
-        return self.__wrapped__(*args, **kwargs)
+    def __call__(_sigtools__self, *args, **kwargs):
+        return _sigtools__self.__wrapped__(*args, **kwargs)
 
     def __get__(self, instance, owner):
         # apply __new__ staticmethod automatic transform
